@@ -284,7 +284,9 @@ SendRectEncodingTight(rfbClientPtr cl,
        uses, on average, twice as much CPU time. */
     if (cl->tightCompressLevel == 9) cl->tightCompressLevel = 3;
 
-    if ( cl->format.depth == 24 && cl->format.redMax == 0xFF &&
+    /* TPIXEL is 3 bytes only for true-colour formats with 32 bits per pixel (RFB 7.7.6) */
+    if ( cl->format.bitsPerPixel == 32 && cl->format.trueColour &&
+         cl->format.depth == 24 && cl->format.redMax == 0xFF &&
          cl->format.greenMax == 0xFF && cl->format.blueMax == 0xFF ) {
         cl->tightUsePixelFormat24 = TRUE;
     } else {
